@@ -27,8 +27,12 @@ import sys
 import textwrap
 import types
 
+import gc
+import weakref
+
 from lib import vlib
 from translate import c09_iface
+from translate import c09_cache
 
 KF_CLEARED = 'c09-cleared-defaults'
 
@@ -39,6 +43,8 @@ PARAM_POOL = ['p', 'q', 'r', 's', 't', 'u', 'v', 'w', 'aa', 'zz']
 def generate():
     text, _ = c09_iface.translate(vlib.REPO)
     vlib.write_if_changed(os.path.join(vlib.COQ, 'Generated', 'C09_gen.v'), text)
+    text, _ = c09_cache.translate(vlib.REPO)
+    vlib.write_if_changed(os.path.join(vlib.COQ, 'Generated', 'C09_cache_gen.v'), text)
 
 
 # =========================================================================================
@@ -556,6 +562,117 @@ def params_term_of_function(fn):
                                         coq_names(kwonly), coq_opt(kwarg, vlib.coq_str))
 
 
+
+# =========================================================================================
+# the history of the run: lives of code objects and which factory served every conversion
+# =========================================================================================
+def code_value(c):
+    """What code-object equality compares (CPython code_richcompare: name, parameter counts, flags, first line,
+    bytecode, constants by type and value, names, local names, line table, exception table; NOT the file name),
+    as plain data that does not keep the code object alive."""
+    def const(x):
+        if isinstance(x, types.CodeType):
+            return ('code', code_value(x))
+        if isinstance(x, tuple):
+            return ('tuple', tuple(const(y) for y in x))
+        if isinstance(x, frozenset):
+            return ('frozenset', tuple(sorted(repr(const(y)) for y in x)))
+        return (type(x).__name__, repr(x))
+    return (c.co_name, c.co_argcount, c.co_posonlyargcount, c.co_kwonlyargcount, c.co_flags, c.co_firstlineno,
+            c.co_code, tuple(const(x) for x in c.co_consts), c.co_names, c.co_varnames, c.co_cellvars, c.co_freevars,
+            c.co_linetable, c.co_exceptiontable)
+
+
+class History(object):
+    """Every code object that reaches PyToPy.transform_function gets a unique identity; its address, its value
+    (class of ==), its death (weak-reference callback, i.e. at the moment CPython deallocates it) and each
+    conversion with the factory that served it are appended to `events` in real-time order.  Nothing here holds a
+    strong reference to a code object, a function or a factory."""
+
+    def __init__(self, broken):
+        self.events = []          # ('new', uid, addr#, val#) | ('die', uid) | ('convert', uid, sub#, src uid | 'TypeError')
+        self.live = {}            # id(code) -> (weakref, uid)
+        self.addr_ix = {}
+        self.val_ix = {}
+        self.sub_ix = {}
+        self.info = {}            # uid -> {'val': n, 'addr': n, 'what': str, 'alive': bool}
+        self.rep = {}             # val# -> weakref of one representative (self-check of code_value)
+        self.by_hash = {}         # hash(code) -> set of val#
+        self.broken = broken
+        self.n = 0
+
+    def uid_of(self, code, what=None):
+        ent = self.live.get(id(code))
+        if ent is not None and ent[0]() is code:
+            return ent[1]
+        self.n += 1
+        uid = self.n
+        addr = self.addr_ix.setdefault(id(code), len(self.addr_ix) + 1)
+        val = self.val_ix.setdefault(code_value(code), len(self.val_ix) + 1)
+        # self-check of the value abstraction against CPython's own == on live objects
+        other = self.rep.get(val)
+        other = other() if other is not None else None
+        if other is not None and other is not code and not (other == code):
+            self.broken.append('code_value() identifies code objects CPython tells apart (%s)' % code.co_name)
+        for v in self.by_hash.get(hash(code), ()):
+            o2 = self.rep.get(v)
+            o2 = o2() if o2 is not None else None
+            if v != val and o2 is not None and o2 == code:
+                self.broken.append('code_value() tells apart code objects CPython identifies (%s)' % code.co_name)
+        self.by_hash.setdefault(hash(code), set()).add(val)
+        if other is None:
+            self.rep[val] = weakref.ref(code)
+        key = id(code)
+
+        def died(_wr, uid=uid, key=key):
+            self.events.append(('die', uid))
+            self.info[uid]['alive'] = False
+            if key in self.live and self.live[key][1] == uid:
+                del self.live[key]
+        self.live[key] = (weakref.ref(code, died), uid)
+        self.info[uid] = {'val': val, 'addr': addr, 'alive': True,
+                          'what': what or '%s line %d of %s' % (code.co_name, code.co_firstlineno,
+                                                                os.path.basename(code.co_filename))}
+        self.events.append(('new', uid, addr, val))
+        return uid
+
+    def sub_of(self, subkey):
+        return self.sub_ix.setdefault(subkey, len(self.sub_ix))
+
+    def coq_case(self):
+        evs, obs = [], []
+        for e in self.events:
+            if e[0] == 'new':
+                evs.append('ENew %d %d %d' % e[1:])
+            elif e[0] == 'die':
+                evs.append('EDie %d' % e[1])
+            else:
+                evs.append('EConvert %d %d' % (e[1], e[2]))
+                obs.append('(%d, %s)' % (e[1], 'STypeError' if e[3] == 'TypeError' else 'SFactory %d' % e[3]))
+        return '{| h_events := [%s]%%N; h_observed := [%s]%%N |}' % ('; '.join(evs), '; '.join(obs))
+
+    def stale_reuse(self):
+        """measured non-triviality: conversions of a code object that sits at the address of a DEAD code object
+        which was converted under the same options and has another value -- the situation in which a cache keyed
+        by anything but the object itself hands out another function's factory"""
+        converted_at = {}     # addr -> set of (val, sub) of dead converted objects
+        conv = {}             # uid -> set of sub
+        n = 0
+        for e in self.events:
+            if e[0] == 'convert':
+                uid, sub = e[1], e[2]
+                inf = self.info[uid]
+                if sub not in conv.setdefault(uid, set()):
+                    if any(v != inf['val'] and sb == sub for v, sb in converted_at.get(inf['addr'], ())):
+                        n += 1
+                conv[uid].add(sub)
+            elif e[0] == 'die':
+                inf = self.info[e[1]]
+                for sub in conv.get(e[1], ()):
+                    converted_at.setdefault(inf['addr'], set()).add((inf['val'], sub))
+        return n
+
+
 class Hooks(object):
     """Monkey-patches that record what the real pipeline did (no hooks in /repo)."""
 
@@ -565,10 +682,56 @@ class Hooks(object):
         from malt.converters import functions
         self.transpiler, self.api, self.functions = transpiler, api, functions
         self.inst = None
-        self.by_code = {}     # code object -> {'sig_after', 'decos_after', 'level'}
+        self.by_uid = {}      # identity of the code object (History.uid_of) -> {'sig_after', 'decos_after', 'level'}
         self.cur = None
         self.broken = []
+        self.history = History(self.broken)
+        self.tf_stack = []
+        self.last_served = None   # (uid of the code converted last by to_graph's own request, uid the factory came from)
         hooks = self
+
+        # PyToPy.transform_function: one request to the cache per call
+        if 'transform_function' in vars(api.PyToPy):
+            self.broken.append('api.PyToPy overrides transform_function')
+        self.orig_tf = transpiler.PyToPy.transform_function
+
+        def transform_function(self_, fn, user_context):
+            frame = {'factory': None, 'transformed': False}
+            u = sub = None
+            try:
+                u = hooks.history.uid_of(fn.__code__)
+                sub = hooks.history.sub_of(self_.get_caching_key(user_context))
+            except Exception as e:   # noqa
+                hooks.broken.append('transform_function hook: %s: %s' % (type(e).__name__, e))
+            hooks.tf_stack.append(frame)
+            failed = None
+            try:
+                return hooks.orig_tf(self_, fn, user_context)
+            except BaseException as e:   # noqa
+                failed = type(e).__name__
+                raise
+            finally:
+                hooks.tf_stack.pop()
+                fac, frame['factory'] = frame['factory'], None
+                if u is not None and sub is not None:
+                    if fac is not None:
+                        src = getattr(fac, '_c09_src', None)
+                        if src is None and frame['transformed']:
+                            src = u
+                            try:
+                                fac._c09_src = u
+                            except Exception as e:   # noqa
+                                hooks.broken.append('cannot tag the factory: %s' % e)
+                        if src is None:
+                            hooks.broken.append('a factory of unknown origin was instantiated')
+                        else:
+                            hooks.history.events.append(('convert', u, sub, src))
+                            if len(hooks.tf_stack) == 0:
+                                hooks.last_served = (u, src)
+                    elif failed == 'TypeError' and not frame['transformed']:
+                        hooks.history.events.append(('convert', u, sub, 'TypeError'))
+                fac = None
+        transpiler.PyToPy.transform_function = transform_function
 
         self.orig_instantiate = transpiler._PythonFnFactory.instantiate
 
@@ -584,6 +747,8 @@ class Hooks(object):
             except Exception as e:   # noqa
                 hooks.broken.append('instantiate hook: %s: %s' % (type(e).__name__, e))
             hooks.inst = rec
+            if hooks.tf_stack:
+                hooks.tf_stack[-1]['factory'] = self_
             try:
                 return hooks.orig_instantiate(self_, globals_, closure, defaults, kwdefaults)
             except Exception as e:   # noqa
@@ -596,6 +761,8 @@ class Hooks(object):
         def transform_ast(self_, node, ctx):
             rec = {'sig_in': None, 'sig_after': None, 'decos_after': None, 'level': 0}
             hooks.cur = rec
+            if hooks.tf_stack:
+                hooks.tf_stack[-1]['transformed'] = True
             out = hooks.orig_transform_ast(self_, node, ctx)
             try:
                 fn = out
@@ -644,6 +811,7 @@ class Hooks(object):
 
     def close(self):
         self.transpiler._PythonFnFactory.instantiate = self.orig_instantiate
+        self.transpiler.PyToPy.transform_function = self.orig_tf
         self.api.PyToPy.transform_ast = self.orig_transform_ast
         self.functions.FunctionTransformer.visit_FunctionDef = self.orig_vfd
         self.functions.FunctionTransformer.visit_Lambda = self.orig_vl
@@ -693,6 +861,7 @@ def convert_and_observe(hooks, loaded, target, src_node):
     o.target, o.fn = target, fn
     hooks.inst = None
     hooks.last_transform = None
+    hooks.last_served = None
     n0 = len(loaded.support.log)
     o.error = None
     o.cf = None
@@ -705,10 +874,23 @@ def convert_and_observe(hooks, loaded, target, src_node):
     # keyed by identity: malt's cache is keyed by code *equality*, so a function of another module with an equal
     # code object (same text at the same line) is served by the factory made from that other source; such a
     # conversion has no transformation of its own to compare with and is left out of the correspondence
-    o.aliased = hooks.last_transform is None and id(fn.__code__) not in hooks.by_code and o.inst is not None
+    # (code objects are identified through the history: nothing here keeps them alive, an address is no identity)
+    uid = hooks.history.uid_of(fn.__code__)
+    o.uid = uid
+    hooks.history.info[uid].setdefault('module_source', loaded.src)
+    o.aliased = hooks.last_transform is None and uid not in hooks.by_uid and o.inst is not None
     if hooks.last_transform is not None:
-        hooks.by_code[id(fn.__code__)] = (fn.__code__, hooks.last_transform)
-    o.transform = hooks.by_code.get(id(fn.__code__), (None, None))[1]
+        hooks.by_uid[uid] = hooks.last_transform
+    o.transform = hooks.by_uid.get(uid)
+    # which code object the factory that served this conversion was generated from
+    o.served_by = hooks.last_served[1] if hooks.last_served and hooks.last_served[0] == uid else None
+    o.foreign = o.foreign_src = None
+    if o.served_by is not None and o.served_by != uid:
+        a, b = hooks.history.info[uid], hooks.history.info[o.served_by]
+        if a['val'] != b['val']:
+            o.foreign = ('the conversion was served by the factory generated from %s (a different code object, %s)'
+                         % (b['what'], 'still alive' if b['alive'] else 'already deallocated'))
+            o.foreign_src = b.get('module_source')
     return o
 
 
@@ -1066,6 +1248,121 @@ def is_cleared_defaults_finding(case):
     return True
 
 
+
+# =========================================================================================
+# the stream of short-lived modules (notebook cell re-run, module reloaded, plugin unloaded)
+# =========================================================================================
+def vary_interface(r, spec):
+    """Another calling interface over the same body: the parameter names are dealt again, in a new order, among
+    positional-only / positional / keyword-only, with new default patterns; *args / **kwargs, the closure and the
+    body (which returns every parameter) stay, so the code object has the same size and CPython is likely to
+    allocate it where a dead one of the family was."""
+    import copy
+    v = copy.deepcopy(spec)
+    sig = v['sig']
+    names = sig['posonly'] + sig['args'] + sig['kwonly']
+    r.shuffle(names)
+    lam_two = v['kind'] == 'lambda' and any(m == 'inner' for _, m in v['closure'])
+    a = 0 if lam_two else r.randint(0, min(2, len(names)))
+    b = r.randint(a, len(names))
+    sig['posonly'], sig['args'], sig['kwonly'] = names[:a], names[a:b], names[b:]
+    sig['ndefaults'] = r.randint(0, b) if r.random() < 0.7 else 0
+    sig['kwdefault'] = [r.random() < 0.5 for _ in sig['kwonly']]
+    if sig['vararg'] and sig['kwarg'] and r.random() < 0.3:
+        sig['vararg'], sig['kwarg'] = sig['kwarg'], sig['vararg']
+    v['order'] = spec['order']
+    return v
+
+
+def lifecycle_episodes(r, n):
+    """-> list of episodes; an episode is a list of steps {'spec', 'src', 'decos', 'keep'}: modules loaded,
+    converted and judged one after the other; after each step the module, the function and the converted function
+    are dropped and garbage is collected, unless `keep` (then they live one step longer)."""
+    out = []
+    for i in range(n):
+        base = gen_spec(r, 0)
+        base['kind'] = r.choice(['toplevel', 'toplevel', 'nested', 'nested', 'method', 'lambda'])
+        if base['kind'] == 'toplevel':
+            base['closure'], base['empty'] = [], []
+        if base['kind'] == 'lambda':
+            if base['sig']['posonly']:
+                base['closure'] = [(n_, 'read') for n_, _ in base['closure']]
+            else:
+                base['closure'] = [(n_, m if m in ('read', 'inner') else 'read') for n_, m in base['closure']]
+        base['empty'] = []
+        base['ndeco'] = 0
+        base['instances'] = 1
+        base['cleared'] = None
+        base['sig']['annot'] = False
+        steps = []
+        prev = None
+        for j in range(r.choice([3, 4, 5])):
+            how = 'base' if j == 0 else r.choice(['variant', 'variant', 'variant', 'variant', 'same', 'other'])
+            if how == 'base':
+                spec = base
+            elif how == 'variant':
+                spec = vary_interface(r, base)
+            elif how == 'same':
+                spec = prev
+            else:
+                spec = gen_spec(r, 0)
+                spec['ndeco'], spec['instances'], spec['cleared'] = 0, 1, None
+                if spec['kind'] == 'decorated':
+                    spec['kind'] = 'nested'
+            src, dsrc, decos = render(spec)
+            steps.append({'spec': spec, 'src': src, 'decos': decos, 'how': how, 'keep': j > 0 and r.random() < 0.15})
+            prev = spec
+        out.append(steps)
+    return out
+
+
+def life_step(hooks, tmp, r, step, index, calls_budget):
+    """One step of an episode.  Returns (plain-data result, objects to keep alive): everything else it touched is
+    unreferenced when it returns, except on an oracle failure (the failing objects are kept for the report)."""
+    loaded = Loaded(tmp, step['src'], 'life')
+    try:
+        target, get_all, set_var = loaded.ns['mk'](0)
+        fn = underlying(target)
+        node = find_def(step['src'], target)
+        o = convert_and_observe(hooks, loaded, target, node)
+        fails = oracle(r, loaded, o, get_all, set_var, step['decos'], calls_budget)
+        term = build_case(index, loaded, o, node, step['decos'])
+        res = {'fails': fails, 'term': term, 'ncalls': getattr(o, 'ncalls', 0), 'aliased': o.aliased,
+               'foreign': o.foreign, 'error': o.error, 'info': None,
+               'nontrivial': bool(fn.__closure__ or fn.__defaults__ or fn.__kwdefaults__)}
+        if fails:
+            res['info'] = {'spec': step['spec'], 'src': step['src'], 'fails': fails, 'fn': fn, 'cf': o.cf, 'node': node,
+                           'instance': 0, 'bases': [0], 'error': o.error, 'aliased': o.aliased and not o.foreign,
+                           'alias_of': None, 'foreign': o.foreign, 'foreign_src': o.foreign_src}
+        return res, (loaded.ns, target, get_all, set_var, o.cf)
+    finally:
+        loaded.close()
+        hooks.inst = None
+        hooks.last_transform = None
+        hooks.cur = None
+
+
+def run_episode(hooks, tmp, r, steps, first_index, calls_budget, on_step):
+    """`keep` on a step: the objects of the previous step are still alive while this one is loaded and converted;
+    otherwise they are dropped and collected first (so their addresses are free again)."""
+    prev = None
+    for j, step in enumerate(steps):
+        if not step['keep']:
+            prev = None
+            gc.collect()
+        try:
+            res, objs = life_step(hooks, tmp, r, step, first_index + j, calls_budget)
+        except SyntaxError as e:
+            res, objs = {'unloadable': '%s: %s' % (e, step['src'][:200])}, None
+        prev = objs
+        objs = None
+        if on_step(j, step, res) is False:
+            break
+        res = None
+    prev = None
+    gc.collect()
+
+
 # =========================================================================================
 # the check
 # =========================================================================================
@@ -1103,12 +1400,12 @@ def _check(run, tmp):
     tie_msg = None
     try:
         generate()
-    except c09_iface.Untranslatable as e:
+    except (c09_iface.Untranslatable, c09_cache.Untranslatable) as e:
         tie_msg = str(e)
         run.note(tie_msg)
     proofs_ok = True
     if tie_msg is None:
-        ok, _log = vlib.standard_proof_step(run, ['Iface/FactoryCheck.vo'])
+        ok, _log = vlib.standard_proof_step(run, ['Iface/FactoryCheck.vo', 'Iface/ServedCheck.vo'])
         proofs_ok = ok
     r = random.Random(run.seed)
     n_specs = 320 if run.tier == 'quick' else 2500
@@ -1247,9 +1544,10 @@ def _check(run, tmp):
                     run.nontriv(key)
                 n_kinds[spec['kind'].split(':')[0]] = n_kinds.get(spec['kind'].split(':')[0], 0) + 1
                 info = {'spec': spec, 'src': src, 'fails': fails, 'fn': fn, 'cf': o.cf, 'node': node,
-                        'instance': inst_no, 'bases': list(bases[:inst_no + 1]), 'error': o.error, 'aliased': o.aliased,
+                        'instance': inst_no, 'bases': list(bases[:inst_no + 1]), 'error': o.error,
+                        'aliased': o.aliased and not o.foreign, 'foreign': o.foreign, 'foreign_src': o.foreign_src,
                         'alias_of': spec.get('alias_of')}
-                if o.aliased:
+                if o.aliased and not o.foreign:
                     n_aliased[0] += 1
                 case_info[idx] = info
                 if fails:
@@ -1267,6 +1565,73 @@ def _check(run, tmp):
                                 'converted_freevars': list(o.cf.__code__.co_freevars) if o.cf else None,
                                 'signature': str(inspect.signature(fn, follow_wrapped=False)),
                                 'oracle_failures': [k for k, _ in fails]})
+        # the stream of short-lived modules: every function dies before (or, `keep`, right after) the next one of
+        # its episode is created and converted.  Everything the main stream keeps alive is frozen meanwhile (left
+        # out of the collections, which keeps gc.collect() cheap); none of it can die, so no address of the main
+        # stream is handed out again
+        spec = src = dsrc = decos = loaded = target = get_all = set_var = fn = node = o = info = term = fails = None
+        keep_alive = prior_cells = None
+        gc.collect()
+        gc.freeze()
+        import time as _time
+        life_stats = {}
+        t_life = _time.time()
+        n_epi = 48 if run.tier == 'quick' else 400
+        life_stats.update({'steps': 0, 'episodes': n_epi})
+        rl = random.Random(run.seed * 7919 + 9)
+        for steps in lifecycle_episodes(rl, n_epi):
+            first = len(case_info)
+            for j, st in enumerate(steps):
+                case_info[first + j] = {'spec': st['spec'], 'src': st['src'], 'fails': [], 'lifecycle': True}
+
+            def on_step(j, step, res, steps=steps, first=first):
+                if res.get('unloadable'):
+                    run.note('generator produced an unloadable module (%s)' % res['unloadable'])
+                    return True
+                run.count()
+                run.count(res['ncalls'])
+                life_stats['steps'] += 1
+                sg = step['spec']['sig']
+                if res['nontrivial']:
+                    run.nontriv(('life', step['how'], step['keep'], step['spec']['kind'], len(sg['posonly']), len(sg['args']),
+                                 bool(sg['vararg']), len(sg['kwonly']), bool(sg['kwarg'])))
+                n_kinds['short-lived'] = n_kinds.get('short-lived', 0) + 1
+                if res['aliased'] and not res['foreign']:
+                    n_aliased[0] += 1
+                if isinstance(res['term'], tuple):
+                    hooks.broken.append(res['term'][1])
+                elif res['term'] is not None:
+                    cases.append(res['term'])
+                if res['info'] is not None:
+                    info = res['info']
+                    seq = [(x['src'], x['keep']) for x in steps[:j + 1]]
+                    fsrc = info.get('foreign_src')
+                    if fsrc is not None and fsrc not in [x for x, _ in seq]:
+                        seq = [(fsrc, False)] + seq
+                    if fsrc is not None and len(seq) > 2:
+                        # the shortest sequence with the same two functions: confirmed here, kept if it fails too
+                        short = [(fsrc, False), (step['src'], False)]
+                        hit = try_sequence(hooks, tmp, life_steps_of(short), 40)
+                        if hit is not None:
+                            seq = short
+                            info['lifecycle_confirmed'] = 'the two-module sequence failed again at repetition %d: %s' % (
+                                hit[0], [k for k, _ in hit[1]])
+                    info['lifecycle'] = [{'module_source': x, 'keep_previous_alive': k} for x, k in seq]
+                    case_info[first + j]['fails'] = info['fails']
+                    failures.append(info)
+                    return False     # the objects of a failure stay alive: the episode ends here
+                return True
+            run_episode(hooks, tmp, rl, steps, first, 3 if run.tier == 'quick' else 6, on_step)
+            if len([f for f in failures if f.get('lifecycle')]) >= 3:
+                break
+    except BaseException:
+        hooks.close()
+        raise
+    finally:
+        gc.unfreeze()
+    try:
+        life_stats['seconds'] = round(_time.time() - t_life, 1)
+        run.extra['short_lived_modules'] = life_stats
         # out-of-guarantee stream: must raise rather than mis-bind
         for name, src in OUT_OF_GUARANTEE:
             loaded = Loaded(tmp, textwrap.dedent(src).lstrip(), 'x')
@@ -1332,7 +1697,41 @@ def _check(run, tmp):
             run.extra['correspondence_disagreements'] = bad[:20]
     elif tie_msg is None and not cases:
         corr_bad = 'no case could be observed'
+    # ---- the history of the run (lives of code objects, which factory served each conversion) replayed on
+    #      MV.Iface.Served over the cache configuration generated from malt/pyct/cache.py
+    hist = hooks.history
+    n_conv = sum(1 for e in hist.events if e[0] == 'convert')
+    run.extra['history'] = {'code_objects': hist.n, 'deaths_observed': sum(1 for e in hist.events if e[0] == 'die'),
+                            'conversions': n_conv, 'option_sets': len(hist.sub_ix),
+                            'conversions_at_the_address_of_a_dead_converted_function_with_another_value':
+                                hist.stale_reuse()}
+    if run.extra['history']['conversions_at_the_address_of_a_dead_converted_function_with_another_value'] == 0:
+        run.note('the stream of short-lived modules never produced a code object at the address of a dead, converted, '
+                 'different one: the address-reuse situation was not exercised in this run')
+    if tie_msg is None and proofs_ok and corr_bad is None:
+        body = ['From Coq Require Import List NArith.', 'Import ListNotations.',
+                'Require Import MV.Iface.IfaceSyntax MV.Generated.C09_cache_gen MV.Iface.Served MV.Iface.ServedCheck.',
+                'Definition hist : hcase := %s.' % hist.coq_case(),
+                'Eval vm_compute in hist_mismatches hist.']
+        rc, out = vlib.coq_eval('C09', 'history', '\n'.join(body), timeout=600)
+        lst = vlib.parse_coq_list_of_nat(out) if rc == 0 else None
+        if lst is None:
+            corr_bad = 'evaluation of the history on the model failed: ' + out[-600:]
+        elif lst:
+            convs = [e for e in hist.events if e[0] == 'convert']
+            if lst[0] == 0:
+                corr_bad = 'the recorded history of code objects is not well formed (identity / address bookkeeping broken)'
+            else:
+                e = convs[lst[0] - 1] if lst[0] - 1 < len(convs) else None
+                corr_bad = ('the cache model (MV.Iface.Served over C09_cache_gen) and the implementation disagree on %d '
+                            'conversion(s); first: conversion #%d of %s was served by the factory of %s' % (
+                                len(lst), lst[0], hist.info[e[1]]['what'] if e else '?',
+                                (hist.info[e[3]]['what'] if e and e[3] != 'TypeError' else 'TypeError')))
+        else:
+            run.extra['history_validated_against_model'] = n_conv
 
+    if corr_bad:
+        run.extra['correspondence_broken'] = corr_bad[:600]
     # ---- verdict
     reported = set()
     kf_counts = {'alias': 0, 'cleared': 0}
@@ -1343,7 +1742,7 @@ def _check(run, tmp):
         classify = KF_CLEARED if is_cleared_defaults_finding(info) else None
         if classify:
             kf_counts['alias' if info.get('aliased') else 'cleared'] += 1
-        sig = (classify, kinds)
+        sig = (classify, kinds, bool(info.get('lifecycle')))
         if classify is None:
             real += 1
         if sig in reported:
@@ -1366,6 +1765,22 @@ def _check(run, tmp):
                          'each in that order with malt.impl.api.to_graph, applies after_definition to the last one '
                          'before converting it, and re-judges the last one)'}
         title = '%s: %s' % (', '.join(kinds), info['fails'][0][1][:160])
+        if info.get('foreign'):
+            rep['served_by'] = info['foreign']
+            title = 'converted function has the interface of ANOTHER function (%s): %s' % (
+                'whose code object was deallocated before' if 'already deallocated' in info['foreign'] else 'still alive', title)
+        if info.get('foreign_src') and not info.get('lifecycle'):
+            info['lifecycle'] = [{'module_source': info['foreign_src'], 'keep_previous_alive': False},
+                                 {'module_source': info['src'], 'keep_previous_alive': False}]
+        if info.get('lifecycle'):
+            rep['lifecycle'] = info['lifecycle']
+            if info.get('lifecycle_confirmed'):
+                rep['lifecycle_confirmed'] = info['lifecycle_confirmed']
+            rep['replay'] = ('bin/check C09 --replay <this file>  (for every entry of `lifecycle`, in order: load module_source '
+                             'with the support globals _d/_deco, convert mk(0)[0] with malt.impl.api.to_graph, then drop the '
+                             'module, the function and the converted function and run gc.collect() -- unless the NEXT entry '
+                             'says keep_previous_alive; the LAST entry is judged.  Whether a new code object lands on the '
+                             'address of a dead one is up to the allocator: the sequence is repeated up to 200 times)')
         run.violation(title, rep, classify=classify)
     if real == 0:
         if tie_msg is not None:
@@ -1412,6 +1827,46 @@ OUT_OF_GUARANTEE = [
 ]
 
 
+def life_steps_of(sources):
+    return [{'spec': None, 'src': src, 'decos': [], 'how': 'replay', 'keep': bool(keep)} for src, keep in sources]
+
+
+def try_sequence(hooks, tmp, steps, attempts):
+    """Run the sequence of short-lived modules up to `attempts` times; -> (repetition, failures of the last step,
+    who served it) of the first repetition in which the last step fails, or None."""
+    found = []
+    for attempt in range(attempts):
+        def on_step(j, step, res):
+            if res.get('unloadable'):
+                return False
+            if j == len(steps) - 1 and res['fails']:
+                found.append((attempt + 1, [(k, m) for k, m in res['fails']], res['foreign']))
+            res['info'] = None
+            return True
+        run_episode(hooks, tmp, random.Random(0), steps, 0, 6, on_step)
+        if found:
+            return found[0]
+    return None
+
+
+def replay_lifecycle(rep):
+    tmp = vlib.ensure_dir(os.path.join(vlib.BUILD, 'tmp', 'c09-replay-%d' % os.getpid()))
+    os.environ['TMPDIR'] = tmp
+    steps = life_steps_of([(e['module_source'], e.get('keep_previous_alive')) for e in rep['lifecycle']])
+    hooks = Hooks()
+    try:
+        found = try_sequence(hooks, tmp, steps, 200)
+    finally:
+        hooks.close()
+        shutil.rmtree(tmp, ignore_errors=True)
+    if found:
+        print('re-judged on %s: repetition %d of the sequence: %s%s' % (
+            vlib.REPO, found[0], found[1], ('\n' + found[2]) if found[2] else ''))
+        return 1
+    print('re-judged on %s: no failure in 200 repetitions of the sequence' % vlib.REPO)
+    return 0
+
+
 def replay(path):
     doc = json.load(open(path))
     print(json.dumps(doc, indent=1)[:4000])
@@ -1419,6 +1874,8 @@ def replay(path):
     src = rep.get('module_source')
     if not src:
         return 0
+    if rep.get('lifecycle'):
+        return replay_lifecycle(rep)
     tmp = vlib.ensure_dir(os.path.join(vlib.BUILD, 'tmp', 'c09-replay-%d' % os.getpid()))
     os.environ['TMPDIR'] = tmp
     try:
